@@ -10,6 +10,7 @@ import collections
 import hashlib
 import importlib
 import json
+import math
 import multiprocessing
 import os
 import re
@@ -713,9 +714,15 @@ def main(argv=None):
         for name, r in per_sub.items():
             sc = sub_by_name[name]
             judged = r.outcomes.get('ok', 0) + r.outcomes.get('violation', 0)
+            # (three standard deviations below the required share, so that a
+            # sub-check with a budget of a few dozen cases is not reported for
+            # an unlucky draw: 2 of 30 where 3 are required)
+            need_nt = sc.min_nontrivial * r.evaluations
+            need_nt -= 3 * math.sqrt(max(need_nt, 0.0))
+            need_j = 0.1 * r.evaluations
+            need_j -= 3 * math.sqrt(max(need_j, 0.0))
             if r.evaluations >= 20 and (
-                    len(r.nontrivial) < sc.min_nontrivial * r.evaluations
-                    or judged < 0.1 * r.evaluations):
+                    len(r.nontrivial) < need_nt or judged < need_j):
                 status_problem = (
                     f'vacuity guard: sub-check {name} produced '
                     f'{len(r.nontrivial)} non-trivial / {judged} judged of '
